@@ -2,11 +2,13 @@ package harness
 
 import (
 	"fmt"
+	"os"
 	"strings"
 	"testing"
 
 	"verif/harness/cfggen"
 	"verif/harness/ev"
+	"verif/harness/model"
 	"verif/harness/refsrv"
 
 	"pgregory.net/rapid"
@@ -247,6 +249,32 @@ func TestC18(t *testing.T) {
 		paths := runC18(rt, c)
 		classifyC18(c, paths)
 	})
+}
+
+// TestC18EnumSlowPassword: ASCII logins in which the user takes his time at the password prompt (16.5 s of
+// real time in quick - longer than the read deadline the server arms - 65 s in thorough) while another
+// session comes and goes on the connection; the password he then sends is a searchable token.
+func TestC18EnumSlowPassword(t *testing.T) {
+	pause := 16500
+	if os.Getenv("VERIF_TIER") == "thorough" {
+		pause = 65000
+	}
+	var w cfggen.World
+	w.Keychain = map[string]string{}
+	w.Cfg.Secrets = []cfggen.Secret{cfggen.NewSecret(cfggen.ScopeA, cfggen.KeyA, cfggen.PrefixA), cfggen.NewSecret(cfggen.ScopeB, cfggen.KeyB, cfggen.PrefixB)}
+	w.Cfg.Users = []cfggen.User{{Name: "alice", Scopes: []string{cfggen.ScopeA, cfggen.ScopeB}, Authenticator: cfggen.BcryptAuth("pw-alpha"), Accounter: cfggen.FileAccounter()}}
+	start := func(user string) authPkt {
+		return authPkt{Kind: "start", Start: &model.AuthenStart{Action: 1, Priv: 1, AType: 1, Service: 1, User: model.B(user), Port: model.B("tty0"), RemAddr: model.B("r")}}
+	}
+	late := cont("T0kSl0wPassw0rdAtThePr0mpt", 0)
+	late.PauseMs = pause
+	c := c18Case{World: w, Scope: cfggen.ScopeA, Key: "K3ySl0wPassw0rdC4se", Level: 30, Scripts: []authScript{
+		{Flavour: "ascii-wrong", Session: 0x1000, Pkts: []authPkt{start("alice"), late}},
+		{Flavour: "ascii-user-in-continue", Session: 0x1001, Pkts: []authPkt{start(""), cont("alice", 0), cont("T0kS3c0ndL4tePassw0rd", 0)}},
+		{Flavour: "pap-wrong", Session: 0x1002, Pkts: []authPkt{{Kind: "start", Minor: 1, Start: &model.AuthenStart{Action: 1, Priv: 1, AType: 2, Service: 1, User: model.B("alice"), Port: model.B("tty0"), RemAddr: model.B("r"), Data: model.B("T0kP4pWr0ngPassw0rd")}}}},
+	}, Order: []int{0, 1, 1, 2, 0, 1}}
+	classifyC18(c, runC18(t, c))
+	ev.Class("real-time-passes-at-the-password-prompt")
 }
 
 func TestC18Regress(t *testing.T) {
